@@ -5,6 +5,7 @@ import YV.Model.XTables
 import YV.Gen.XPath
 import YV.Gen.Status
 import YV.Proofs.XReject
+import YV.Proofs.XFuncs
 import YV.Proofs.XLeafref
 import YV.Proofs.XText
 namespace YV.C04
@@ -48,6 +49,32 @@ theorem C04_unsupported_rejected (strict fixed : Bool) (g : Grammar) (hg : g ≠
     ∃ pre rest, (lexAll strict g pm bs).1 = pre ++ rest ∧ (∀ t ∈ pre, bad t.tok = false) ∧
       (rest.head?.map (·.tok)).getD .eof = .eof :=
   build_rejects strict fixed g hg pm bs prog h
+
+/-- **C04 (functions are the registered ones).** The lexer of the must / when and path-eval grammars hands out a
+    function token only for a name that the function table (`C04_fn_table`: regenerated from symbol.go) maps to that
+    function, and only before an opening parenthesis -/
+theorem C04_function_tokens_are_registered (strict : Bool) (pm : PfxMap) (c : Rune) (s s' : LexSt) (f : Fn)
+    (h : lexNameCommon strict pm c s = (.func f, s')) :
+    lookupFn (constructToken c nameCharCommon "NAME" s).1 = some f ∧
+      nnwsIs [chr '('] (constructToken c nameCharCommon "NAME" s).2 = true :=
+  func_token_from_table strict pm c s s' f h
+
+/-- **C04 (unknown functions are rejected).** A name before an opening parenthesis that the table does not hold — a
+    near-miss spelling such as `starts_with`, a function of XPath this code base does not implement — is a lexer
+    error (`current`, `deref` and the node-type names have tokens of their own) -/
+theorem C04_unknown_function_rejected (strict : Bool) (pm : PfxMap) (c : Rune) (s : LexSt)
+    (hop : canBeOperator (constructToken c nameCharCommon "NAME" s).2.prec = false)
+    (hpar : nnwsIs [chr '('] (constructToken c nameCharCommon "NAME" s).2 = true)
+    (hno : lookupFn (constructToken c nameCharCommon "NAME" s).1 = none)
+    (hc : (constructToken c nameCharCommon "NAME" s).1 ≠ strR "current")
+    (hd : (constructToken c nameCharCommon "NAME" s).1 ≠ strR "deref")
+    (hn : isNodeType (constructToken c nameCharCommon "NAME" s).1 = false) :
+    (lexNameCommon strict pm c s).1 = .err :=
+  unknown_function_is_error strict pm c s hop hpar hno hc hd hn
+
+/-- non-vacuity: the table knows `starts-with` and neither `starts_with` nor `lang` -/
+example : (lookupFn (strR "starts-with")).isSome = true ∧ lookupFn (strR "starts_with") = none ∧
+    lookupFn (strR "lang") = none := by decide
 
 /-- what the lexer makes of the characters in question ('@' and '//'; axis and node-type names are recognised by
     `lexNameCommon` before '::' / '(') -/
